@@ -517,7 +517,7 @@ def run(ctx):
     ctx.coverage = {
         "states": r.distinct, "transitions": r.generated,
         "traces_validated_against_impl": st.get("pairs", 0) + std.get("pairs", 0),
-        "exhaustive": True,
+        "exhaustive": ctx.quick or not cap,       # model part exhaustive; thorough replays all testdata trees unless capped
         "tlc": {"module": "MCPatternFilter", "config": "MCPatternFilter_design.cfg", "wall_s": round(r.wall, 1),
                 "invariants": ["FilterComplete", "EntrySound", "SymsSound", "RootCallsSound"]},
         "tlc_patterns": len(tlc_pats), "hand_patterns": len(hand_pats), "repo_patterns": len(repo_pats), "generic_node_patterns": len(generic),
